@@ -25,13 +25,13 @@ def edgesAt (inp : RunInput) (nTasks : Nat) (tr : List Ev) (t : Name) : List Nam
     (if ranFirst inp nTasks tr t then inp.setup t else [])
 
 /-- close `acc` under `succ`, `fuel` rounds -/
-def reachIter (succ : Name → List Name) : Nat → List Name → List Name
+def reachIterC09 (succ : Name → List Name) : Nat → List Name → List Name
   | 0, acc => acc
-  | fuel + 1, acc => reachIter succ fuel (addNew acc (acc.flatMap succ))
+  | fuel + 1, acc => reachIterC09 succ fuel (addNew acc (acc.flatMap succ))
 
 /-- `t` lies on a dependency cycle of the closure graph -/
 def onCycle (inp : RunInput) (nTasks : Nat) (tr : List Ev) (t : Name) : Bool :=
-  t ∈ reachIter (edgesAt inp nTasks tr) nTasks (addNew [] (edgesAt inp nTasks tr t))
+  t ∈ reachIterC09 (edgesAt inp nTasks tr) nTasks (addNew [] (edgesAt inp nTasks tr t))
 
 /-- the members of the closure of the selection that lie on a cycle -/
 def cycleTasks (inp : RunInput) (nTasks : Nat) (tr : List Ev) : List Name :=
